@@ -156,6 +156,27 @@ c17_ctor C17_ctor_ull_l ctor_ull_l tULL tL
 c17_ctor C17_ctor_ull_ul ctor_ull_ul tULL tUL
 c17_ctor C17_ctor_ull_ll ctor_ull_ll tULL tLL
 
+/-! Mixed-operand operators `SafeInt<T1> op T2` (used by the allocation-size computations in
+    expr.h / problem.h): the plain operand is first converted with the checked constructor. -/
+theorem C17_mixadd_i_i (a b : Int) (ha : InR tI a) (hb : InR tI b) : mixadd_i_i a b = spec tI (a + b) := by
+  simp only [mixadd_i_i, SafeInt_v__i, Outcome.bind_ret]; exact C17_add_i a b ha hb
+theorem C17_mixmul_i_i (a b : Int) (ha : InR tI a) (hb : InR tI b) : mixmul_i_i a b = spec tI (a * b) := by
+  simp only [mixmul_i_i, SafeInt_v__i, Outcome.bind_ret]; exact C17_mul_i a b ha hb
+theorem C17_mixadd_ul_ul (a b : Int) (ha : InR tUL a) (hb : InR tUL b) : mixadd_ul_ul a b = spec tUL (a + b) := by
+  simp only [mixadd_ul_ul, SafeInt_v__ul, Outcome.bind_ret]; exact C17_add_ul a b ha hb
+theorem C17_mixadd_i_ul (a b : Int) (ha : InR tI a) (hb : InR tUL b) :
+    mixadd_i_ul a b = if InR tI b then spec tI (a + b) else .throw := by
+  simp only [mixadd_i_ul, C17_ctor_ul_i b hb, spec]
+  split
+  · rename_i h; simp only [Outcome.bind_ret, if_pos (show InR tI b from h)]; exact C17_add_i a b ha h
+  · rename_i h; simp only [Outcome.bind_throw, if_neg (show ¬ InR tI b from h)]
+theorem C17_mixmul_i_ul (a b : Int) (ha : InR tI a) (hb : InR tUL b) :
+    mixmul_i_ul a b = if InR tI b then spec tI (a * b) else .throw := by
+  simp only [mixmul_i_ul, C17_ctor_ul_i b hb, spec]
+  split
+  · rename_i h; simp only [Outcome.bind_ret, if_pos (show InR tI b from h)]; exact C17_mul_i a b ha h
+  · rename_i h; simp only [Outcome.bind_throw, if_neg (show ¬ InR tI b from h)]
+
 /-- never undefined behaviour, as a corollary (shown for one instantiation of each shape;
     every theorem above has `spec` on the right-hand side, and `spec_ne_ub` applies to all) -/
 theorem C17_no_ub_add_i (a b : Int) (ha : InR tI a) (hb : InR tI b) : add_i a b ≠ .ub := by
